@@ -9,7 +9,7 @@ EXPLANATION = ("For gix-pack entry headers: the kind->type-id table of Header::a
                "must reach an error; the in-memory and streaming header parsers, and leb64/leb64_from_read, must have the same multiset of "
                "(arithmetic/bit operator, constant) pairs, containing the pack format's masks and shifts, and the header writer must use the "
                "complementary constants; Header::size is write_to into io::sink (equal by construction). Round-trip over all widths and delta "
-               "application are value properties and are not decided.")
+               "application are value properties and are not decided. A length limit present in one sibling only is tolerated iff its constant is >= 10 (bytes a u64 varint needs).")
 SPEC = {"Commit": 1, "Tree": 2, "Blob": 3, "Tag": 4, "OfsDelta": 6, "RefDelta": 7}
 ARITH = ("Shl", "Shr", "BitAnd", "BitOr", "BitXor", "Add", "Sub", "Mul", "Ne", "Eq")
 
@@ -52,8 +52,13 @@ def run(db, chk):
     for x, y, spec in pairs:
         fx, fy = db.one("^%s$" % x), db.one("^%s$" % y)
         sx, sy = sig(fx), sig(fy)
-        chk.ob("sibling-signature", "%s == %s" % (x.split("::")[-1], y.split("::")[-1]), sx == sy,
-               "only in first %s, only in second %s" % (dict(sx - sy), dict(sy - sx)), "%s:%d" % (fy.file, fy.line), key="sibling-signature|%s" % x.split("::")[-1])
+        # a length limit present in one sibling only is not a disagreement as long as it cannot reject a header the writer can produce:
+        # a 64-bit size / distance needs up to 10 varint bytes, so one-sided comparisons with constants >= 10 are tolerated
+        def strict(d):
+            return {k: v for k, v in dict(d).items() if not (k[0] in ("Eq", "Ne", "Lt", "Le", "Gt", "Ge") and isinstance(k[1], int) and k[1] >= 10)}
+        a, b = strict(sx - sy), strict(sy - sx)
+        chk.ob("sibling-signature", "%s == %s" % (x.split("::")[-1], y.split("::")[-1]), not a and not b,
+               "only in first %s, only in second %s" % (a, b), "%s:%d" % (fy.file, fy.line), key="sibling-signature|%s" % x.split("::")[-1])
         for s in spec:
             chk.ob("format-constant", "%s uses %s" % (x.split("::")[-1], (s[0], s[1])), s in sx, "", "%s:%d" % (fx.file, fx.line), key="format-constant|%s|%s|%s" % (x.split("::")[-1], s[0], s[1]))
     # initial shift of the size accumulation is 4 in both parsers (the first byte carries 4 size bits)
